@@ -275,7 +275,12 @@ func c11SpareProps(r *rand.Rand, label string) gts.Props {
 		vv []string
 	}
 	items := []kv{{"label", []string{label}}}
-	switch r.Intn(4) {
+	switch r.Intn(5) {
+	case 4:
+		// the qualifier set of a coding sequence as databases write it, the
+		// translation not in last place.
+		items = append(items, kv{"codon_start", []string{"1"}}, kv{"product", []string{"p " + label}}, kv{"translation", []string{"MKV" + label}},
+			kv{"protein_id", []string{"P" + label}}, kv{"db_xref", []string{"MIM:" + label, "GeneID:" + label}})
 	case 0:
 		items = append(items, kv{"note", []string{"n " + label}})
 	case 1:
